@@ -298,6 +298,17 @@ class C10(Check):
                 return r
         bb.DDEHistory = RecHist
         rec = Recorder()
+
+        def rec_marked(f, **kw_):
+            # the recorder, plus a marker in the history log for every RHS evaluation (so that evaluations, history updates
+            # and history queries share one order)
+            g = rec(f, **kw_)
+
+            def marked(t, y, *a):
+                log.append(('e', float(t), None))
+                return g(t, y, *a)
+            marked.__wrapped__ = f
+            return marked
         bump('run_' + cfg['solver'])
         outputs = {f'o{i}': n for i, n in enumerate(names)}
         try:
@@ -305,7 +316,7 @@ class C10(Check):
             if skw:
                 bump('subsampled')
             R = c.run(T, dt, outputs=outputs, solver=cfg['solver'], vectorize=cfg['vectorize'], float_precision=prec,
-                      decorator=rec, verbose=False, backend=cfg.get('backend', 'default'), **skw,
+                      decorator=rec_marked, verbose=False, backend=cfg.get('backend', 'default'), **skw,
                       **(cfg.get('run_kw', {}) if cfg['solver'] == 'scipy' else {}))
         except Exception as e:
             if not rec.events:
@@ -364,9 +375,25 @@ class C10(Check):
                     V('L-feed', 'silent', 'gap', f'no history update between t={last} and t={t} (sampling step {cfg["m"] * dt})')
                     return res
                 last = t
+            # every ACCEPTED step is fed, not only the sampling times: one attempt of the embedded pair evaluates the RHS at
+            # most 7 times at non-decreasing times (a rejected attempt restarts earlier); a longer non-decreasing stretch of
+            # evaluations without a history update in between means an accepted step was not recorded
+            streak, t_prev = 0, None
+            for kind, t, _ in log:
+                if kind == 'u':
+                    streak, t_prev = 0, None
+                elif kind == 'e':
+                    streak = streak + 1 if (t_prev is None or t >= t_prev) else 1
+                    t_prev = t
+                    if streak > 8:
+                        V('L-feed', 'silent', 'starved', f'{streak} RHS evaluations at non-decreasing times up to t={t} without a '
+                                                         f'history update in between (an accepted solver step was not fed)')
+                        return res
         # ---- L-pre / L-post: replay the log against RefHist
         rt, ry = [0.0], [y0v.copy()]
         for kind, t, v in log:
+            if kind == 'e':
+                continue
             if kind == 'u':
                 rt.append(t)
                 ry.append(np.asarray(v).reshape(-1))
